@@ -126,7 +126,10 @@ class SetupPyAddDependencies(SimpleCodemod, NameResolutionMixin):
 
         # we add the new dependencies in the same line as the last
         # dependency listed in install_requires
-        self.line_num_changed = self.lineno_for_node(arg.value.elements[-1]) - 1
+        # (line numbers in the report start at 1: a one-line setup.py)
+        self.line_num_changed = max(
+            self.lineno_for_node(arg.value.elements[-1]) - 1, 1
+        )
 
         # grab the penultimate comma value if it has more than one element
         new_comma = cst.Comma(whitespace_after=cst.SimpleWhitespace(" "))
